@@ -12,6 +12,7 @@ import (
 	"os"
 	"path/filepath"
 	"reflect"
+	"regexp"
 	"strings"
 	"testing"
 	"time"
@@ -77,7 +78,7 @@ type Case struct {
 	BodyLinks []string `json:"body_links"` // href values as they stand in the JSON string (before HTML escaping)
 	Atts      []Att    `json:"attachments"`
 	PostKind  string   `json:"post_kind"`
-	Media     []Att    `json:"media"`  // the post's url list
+	Media     []Att    `json:"media"` // the post's url list
 	Icon      *Att     `json:"icon"`
 	Banner    *Att     `json:"banner"`
 }
@@ -142,6 +143,16 @@ func linkObj(a Att) map[string]any {
 }
 
 const settle = 60 * time.Second
+
+var refMediaTypeRe = regexp.MustCompile("^([!#$%&'*+.^_`|~0-9A-Za-z-]+)/([!#$%&'*+.^_`|~0-9A-Za-z-]+)")
+
+func refMediaType(declared string) *mime.MediaType {
+	m := refMediaTypeRe.FindStringSubmatch(declared)
+	if m == nil {
+		return nil
+	}
+	return &mime.MediaType{Essence: m[0], Supertype: m[1], Subtype: m[2]}
+}
 
 func check(c Case) vrep.Result {
 	prefix := sim.NewPrefix()
@@ -236,6 +247,14 @@ func check(c Case) vrep.Result {
 	n := len(c.BodyLinks) + len(c.Atts)
 	for k := 1; k <= n+1; k++ {
 		link, mt, present := p.SelectLink(k)
+		if a := k - len(c.BodyLinks) - 1; present && a >= 0 && a < len(c.Atts) {
+			// an attachment that declares a well-formed media type is opened as exactly that type (RFC 9110: the subtype is
+			// everything between the slash and the parameters)
+			if ref := refMediaType(c.Atts[a].MediaType); ref != nil {
+				mt = ref
+				classes = append(classes, "declared-media-type")
+			}
+		}
 		if err := press(fmt.Sprintf("%d\r", k), fmt.Sprintf("link %d + Enter", k), link, mt, present); err != nil {
 			return vrep.Result{Classes: classes, Err: err}
 		}
@@ -283,13 +302,13 @@ func imin(a, b int) int {
 }
 
 var argPool = []string{"%url", "%url", "%mimetype", "%supertype", "%subtype", "x%url", "%urlx", "%url %mimetype", "--open=%url", "%URL", "%%url", "%", "", "-", "--", "-c",
-	"%mime", "%type", "$0", "$(id)", "`id`", "a b", "%url\n", " %url", "%subtype/%supertype", "'%url'"}
+	"%mime", "%type", "-rf", "--help", "https://x.test/plain", "image/png", "*/*", "$0", "$(id)", "`id`", "a b", "%url\n", " %url", "%subtype/%supertype", "'%url'"}
 
 var linkPool = []string{"https://x.test/plain", "https://x.test/a b c", "https://x.test/\"quoted\"", "https://x.test/'single'", "https://x.test/$(touch pwned)", "https://x.test/`id`",
-	"-rf", "--help", "%url", "%mimetype", "https://x.test/;rm -rf ~", "https://x.test/a|b&c", "https://x.test/%url", "https://x.test/a\nb", "https://x.test/*?[]", "relative/path",
+	"-rf", "--help", "-", "--", "-c", "image/png", "*/*", "%url", "%mimetype", "https://x.test/;rm -rf ~", "https://x.test/a|b&c", "https://x.test/%url", "https://x.test/a\nb", "https://x.test/*?[]", "relative/path",
 	"mailto:someone@x.test", "https://x.test/ünï", "https://x.test/" + strings.Repeat("long", 1500), "javascript:alert(1)", "https://x.test/$HOME/${IFS}", "https://x.test/\\n\\0"}
 
-var mtPool = []string{"png", "/png", "image/", "not a media type", "image/%url", "%subtype/png", "%url/%mimetype", "video/%supertype", "", "image/png", "video/mp4", "audio/ogg", "text/html; charset=utf-8", "application/x-weird+thing", "image/*", "IMAGE/PNG"}
+var mtPool = []string{"png", "/png", "image/", "not a media type", "image/%url", "%subtype/png", "%url/%mimetype", "video/%supertype", "", "image/png", "video/mp4", "audio/ogg", "text/html; charset=utf-8", "application/x-weird+thing", "image/svg+xml", "application/activity+json", "image/*", "IMAGE/PNG"}
 
 func genAtt(t *rapid.T, types []string) Att {
 	return Att{Type: rapid.SampledFrom(types).Draw(t, "atttype"), URL: rapid.SampledFrom(linkPool).Draw(t, "atturl"), MediaType: rapid.SampledFrom(mtPool).Draw(t, "attmt")}
@@ -321,7 +340,7 @@ func gen(t *rapid.T) Case {
 	return c
 }
 
-func TestProp(t *testing.T)   { vrep.Run(t, "Prop", true, gen, check) }
+func TestProp(t *testing.T) { vrep.Run(t, "Prop", true, gen, check) }
 func TestReplay(t *testing.T) {
 	switch vrep.ReplayCheckName() {
 	case "ConfigHook":
@@ -330,7 +349,6 @@ func TestReplay(t *testing.T) {
 		vrep.Replay(t, "Prop", check)
 	}
 }
-
 
 // ConfigHook: the configured argv is what the configuration file says, string for string (nothing is expanded,
 // split or trimmed when the file is loaded).
